@@ -5,6 +5,7 @@ import GA.Drv.SeqE
 import GA.Drv.MemE
 import GA.Drv.HistE
 import GA.Drv.HexE
+import GA.Drv.HeapE
 open GA.Drv
 
 def answerLine (line : String) : String :=
@@ -21,6 +22,7 @@ def answerLine (line : String) : String :=
       | "regroup" => MemE.regroup kv
       | "hist" => HistE.answer kv
       | "hex" => HexE.answer kv
+      | "heap" => HeapE.answer kv
       | _ => "bad-engine"
     s!"{seq} {body}"
   | _ => "bad-line"
